@@ -4,6 +4,8 @@
 package main
 
 import (
+	"os"
+	"time"
 	"encoding/hex"
 	"flag"
 	"fmt"
@@ -89,6 +91,44 @@ func otherChains(r *gen.R, n int, exclude string) []string {
 		}
 	}
 	return out
+}
+
+// watch runs one real session generation under a watchdog: NewSessionNodes has no iteration bound, and a
+// generation that does not return within the limit is reported as TIMEOUT. The stuck goroutine cannot be
+// stopped, so the caller flushes the trace and ends the process after emitting the line.
+const genLimit = 5 * time.Second
+
+var stuck bool
+
+func watch(f func() string) string {
+	ch := make(chan string, 1)
+	go func() { ch <- f() }()
+	select {
+	case s := <-ch:
+		return s
+	case <-time.After(genLimit):
+		stuck = true
+		return "TIMEOUT"
+	}
+}
+
+func sameList(a, b []sdk.Address) bool {
+	if len(a) != len(b) {
+		return false
+	}
+	for i := range a {
+		if (a[i] == nil) != (b[i] == nil) || !a[i].Equals(b[i]) {
+			return false
+		}
+	}
+	return true
+}
+
+func finishIfStuck(t *gen.Trace) {
+	if stuck {
+		t.Close(map[string]interface{}{"stopped": "a session generation did not terminate"})
+		os.Exit(0)
+	}
 }
 
 func run(st *stub, sessionH, refH int64, chain string, key pc.SessionKey, count int) string {
@@ -251,16 +291,25 @@ func one(r *gen.R, t *gen.Trace) {
 			}
 		}
 	}
-	r1 := run(mk(), sessionH, refH, chain, key, count)
-	r2 := run(mk(), sessionH, refH, chain, key, count)
+	// the candidate list handed to the generation is the keeper's own slice (in production: the slice held by
+	// the validators-by-chain cache); it must come back unchanged, and a second generation on it must agree
+	before := append([]sdk.Address(nil), sess.list...)
+	r1 := watch(func() string { return run(mk(), sessionH, refH, chain, key, count) })
+	mut := "intact"
+	if !sameList(before, sess.list) {
+		mut = "mutated"
+	}
 	same := "same"
-	if r1 != r2 {
-		same = "differs:" + strings.ReplaceAll(r2, " ", "_")
+	if r1 != "TIMEOUT" {
+		r2 := watch(func() string { return run(mk(), sessionH, refH, chain, key, count) })
+		if r1 != r2 {
+			same = "differs:" + strings.ReplaceAll(r2, " ", "_")
+		}
 	}
 	addrs := "-"
-	if len(sess.list) > 0 {
-		p := make([]string, len(sess.list))
-		for i, a := range sess.list {
+	if len(before) > 0 {
+		p := make([]string, len(before))
+		for i, a := range before {
 			p[i] = gen.Hex(a)
 		}
 		addrs = strings.Join(p, ",")
@@ -273,6 +322,7 @@ func one(r *gen.R, t *gen.Trace) {
 	if len(keys) > 0 {
 		ks = strings.Join(keys, ",")
 	}
-	t.Line("sess", strings.HasPrefix(r1, "ok") && badWeight > 0, "sess %d %d %d %d %s %s %s %s => %s %s",
-		count, featH, refH, maxChains, chain, addrs, recs, ks, r1, same)
+	t.Line("sess", strings.HasPrefix(r1, "ok") && badWeight > 0, "sess %d %d %d %d %s %s %s %s => %s %s %s",
+		count, featH, refH, maxChains, chain, addrs, recs, ks, r1, same, mut)
+	finishIfStuck(t)
 }
